@@ -1,8 +1,20 @@
 package props
 
 import (
+	"verif/drv"
 	"verif/sim"
 )
+
+// Configure sets the process-wide workload switches for the check that is about
+// to run (one check per process; the self-test calls it before each scenario).
+func Configure(id string) {
+	switch id {
+	case "C11", "c11-child", "C13", "C14":
+		drv.AllowWillEdit = true
+	default:
+		drv.AllowWillEdit = false
+	}
+}
 
 // extra holds scenarios that exist only in the instrumented build (tag verifinstr).
 var extra []*sim.Scenario
